@@ -1,4 +1,6 @@
 """C13: fingerprints and key IDs are the RFC-defined hashes and are stable."""
+# the model is an independent transcription of the RFC: a disagreement is a failing input
+DISAGREEMENT_IS_FAILURE = True
 BIN = "c13"
 
 def expected(case, mout):
